@@ -2,6 +2,7 @@ import NanoVerif.Model.Proto
 import NanoVerif.Model.Penalty
 import NanoVerif.Model.PenaltySolver
 import NanoVerif.Model.PenaltyState
+import NanoVerif.Gen.AugLagStep
 /-!
   driver families `pen` and `al` (C05): one self-contained op per line, the generic model of `Model/Constraint.lean` and
   `Model/Penalty.lean` run at `Float`. The grammar of the op lines is documented at the top of `harness/c05.cpp`.
@@ -293,7 +294,11 @@ def handleAl : Toks → Option String
         if r.hasStart then showFloats s.best.x else "-", if r.hasObj then obj else "-"])
     let retx := final.best.x
     -- tolerant section: `make_ro1`, and the constraint kinds at the first and at the returned point
-    let ro1m := makeRo1 fx0 (mkState cs x0) 1e-6 1e-6 10.0
+    -- `make_ro1(bstate)` with the default arguments and the floor literal of the CURRENT source (Gen/AugLagStep.lean, regenerated on
+    -- every check; `model_makeRo1_is_generated` of Proofs/PenaltyGen.lean: this is `makeRo1 fx0 st0 (1/1000000) ro_min ro_max`)
+    let st0 := mkState cs x0
+    let g0 := st0.cineq.map NanoVerif.Gen.AugLagStep.ro1Elem
+    let ro1m := NanoVerif.Gen.AugLagStep.makeRo1Default fx0 (dot st0.ceq st0.ceq) (dot g0 g0)
     -- … and at every point a valid inner-solver answer reports (the hypothesis `Consistent` of the theorems)
     let consistent := (recs.filter (·.iterOk)).map (fun r =>
       s!"{showFloats (evalEq kinds r.cx)} {showFloats (evalIneq kinds r.cx)}")
